@@ -7,7 +7,10 @@
 (* the format transcription (CellCodec, RowsFormat, EventFormat, JsonSem,  *)
 (* GTID modules).  A failed monitor prints <<"MONFAIL", json>>.            *)
 (***************************************************************************)
-EXTENDS CellCodec, Json
+EXTENDS CellCodec, Json, GTIDText
+
+G == INSTANCE GTIDSet WITH GDefects <- {}
+Ma == INSTANCE MariaGTID WITH MDefects <- {}
 
 CONSTANTS TraceFile, Props
 
@@ -19,6 +22,8 @@ tvars == <<l, nviol, ncase>>
 F(mon, e, what) == [mon |-> mon, id |-> e.id, fam |-> e.fn,
                     info |-> [what |-> what, cls |-> e.cls, typ |-> (IF "typ" \in DOMAIN e THEN e.typ ELSE 0),
                               metab |-> (IF "metab" \in DOMAIN e THEN e.metab ELSE <<>>)]]
+\* one failure per violated clause of a conjunction list
+Chk(mon, e, clauses) == {F(mon, e, c[2]) : c \in {x \in clauses : ~x[1]}}
 
 (***************************************************************************)
 (* fn = "cell": CellBytes on one cell (C10, C11, C12, C13).                *)
@@ -73,8 +78,109 @@ MonBatch(e, p) ==
             info |-> [what |-> "decoded text differs from the canonical text", cls |-> e.cls, typ |-> e.typ, metab |-> e.metab,
                       raw |-> e.from + i - 1, got |-> e.texts[i], want |-> want(i), count |-> Cardinality(bad)]]}
 
+(***************************************************************************)
+(* GTID family (C18, C19).                                                 *)
+(***************************************************************************)
+Strip(rep) == [i \in 1..Len(rep) |-> [sid |-> rep[i].sid, ivs |-> [j \in 1..Len(rep[i].ivs) |-> [s |-> rep[i].ivs[j].s, e |-> rep[i].ivs[j].e]]]]
+WMySQL56 == <<77, 121, 83, 81, 76, 53, 54, 47>>        \* MySQL56/
+WMariaDB == <<77, 97, 114, 105, 97, 68, 66, 47>>       \* MariaDB/
+
+MonGs56Add(e) ==
+  LET r0 == Strip(e.rep)
+      x  == G!NormalAdd(r0, e.sid, e.n)
+      o  == e.obs
+  IN Chk("C18.add", e, {
+       <<o.text = Set56Text(x), "AddGTID result is not the union in canonical form">>,
+       <<o.text = Set56Text(G!AddOp(r0, e.sid, e.n)), "AddGTID result differs from the operational model">>,
+       <<o.recvSame /\ o.recvText = Set56Text(r0), "AddGTID altered the set it was added to">>,
+       <<o.had = G!MemberIvs(G!IvsOf(r0, e.sid), e.n), "ContainsGTID disagrees with set membership">>,
+       <<o.has, "the added GTID is not contained in the result">>,
+       <<o.flavor = "MySQL56", "flavor">>})
+
+RECURSIVE HistFails(_, _, _, _, _)
+HistFails(e, rep, ops, obs, i) ==
+  IF ops = <<>> THEN {}
+  ELSE LET g == Head(ops)  o == Head(obs)
+           x == G!NormalAdd(rep, g.sid, g.n)
+       IN Chk("C18.history", e, {
+            <<o.text = Set56Text(x), "AddGTID history: result is not the union in canonical form">>,
+            <<o.recvSame /\ o.recvText = Set56Text(rep), "AddGTID history: the receiver was altered">>,
+            <<o.has, "AddGTID history: the added GTID is not contained in the result">>})
+          \cup HistFails(e, x, Tail(ops), Tail(obs), i + 1)
+MonGs56History(e) == HistFails(e, Strip(e.rep), e.ops, e.obs, 1)
+
+MonGs56Pair(e) ==
+  LET a == Strip(e.a)  b == Strip(e.b) IN
+  Chk("C18.pair", e, {
+    <<e.obs.contains = G!SubsetRep(b, a), "Contains disagrees with the superset relation">>,
+    <<e.obs.contains = G!ContainsOp(a, b), "Contains differs from the operational model">>,
+    <<e.obs.equal = (G!SubsetRep(b, a) /\ G!SubsetRep(a, b)), "Equal disagrees with set equality">>})
+
+GtidRoundTrip(p, e, text, prefix) ==
+  LET o == e.obs IN
+  Chk(p, e, {
+    <<o.text = text, "String() is not the canonical text">>,
+    <<~o.parseErr /\ o.text2 = text /\ o.eq, "parsing the printed text does not return an equal value">>,
+    <<o.enc = prefix \o text, "flavor-tagged encoding">>,
+    <<~o.decErr /\ o.text3 = text /\ o.eq3, "decoding the flavor-tagged encoding does not return an equal value">>,
+    <<o.setText = text, "the single-GTID set of the GTID">>})
+
+MonGtid56(e) == GtidRoundTrip("C19.gtid56", e, SidText(e.sid) \o <<58>> \o e.gno, WMySQL56)
+MonGtid56Event(e) ==
+  Chk("C19.gtid-event", e, {<<~e.obs.err /\ e.obs.isgtid /\ e.obs.text = SidText(e.sid) \o <<58>> \o e.gno, "GTID event does not decode to the identifier written">>})
+MonGtidMaria(e) == GtidRoundTrip("C19.gtidmaria", e, MariaText(e.dom, e.srv, e.sq), WMariaDB)
+MonGtidMariaEvent(e) ==
+  Chk("C19.gtid-event", e, {
+    <<~e.obs.err /\ e.obs.isgtid /\ e.obs.text = MariaText(e.dom, e.srv, e.sq), "MariaDB GTID event does not decode to the identifier written">>,
+    <<e.obs.begin = ~e.standalone, "MariaDB GTID event: implicit BEGIN flag">>})
+
+MonGs56Codec(e) ==
+  LET o == e.obs  text == Set56TextS(e.rep) IN
+  Chk("C19.set56", e, {
+    <<\A i \in 1..Len(e.rep) : \A j \in 1..Len(e.rep[i].ivs) : IvAnnotOK(e.rep[i].ivs[j]), "HARNESS: inconsistent interval annotations">>,
+    <<o.text = text, "String() of a set is not the canonical text">>,
+    <<~o.parseErr /\ o.text2 = text /\ o.eq, "parsing the printed set does not return an equal set">>,
+    <<o.block = SidBlockBytes(e.rep), "SIDBlock() is not the binary form of the set">>,
+    <<~o.blockErr /\ o.text3 = text /\ o.eq3, "the SID block does not decode back to an equal set">>,
+    <<~o.prevErr /\ o.text4 = text, "PREVIOUS_GTIDS event does not decode to the set written">>})
+
+\* a MariaDB set text as a set of entries
+MariaEntries(text) == {[dom |-> ParseNat(Split(p, 45)[1]), srv |-> ParseNat(Split(p, 45)[2]), seq |-> ParseNat(Split(p, 45)[3])] :
+                         p \in {Split(text, 44)[i] : i \in 1..Len(Split(text, 44))}}
+AsSet(set) == {set[i] : i \in 1..Len(set)}
+WellFormedMaria(text) == \A i \in 1..Len(Split(text, 44)) : Len(Split(Split(text, 44)[i], 45)) = 3
+
+RECURSIVE MariaHist(_, _, _, _, _)
+MariaHist(e, set, prevText, ops, obs) ==
+  IF ops = <<>> THEN {}
+  ELSE LET g == Head(ops)  o == Head(obs)
+           x == Ma!AddOp(set, g)
+       IN Chk("C19.mariaset", e, {
+            <<WellFormedMaria(o.text) /\ MariaEntries(o.text) = AsSet(x) /\ Len(Split(o.text, 44)) = Len(x),
+              "MariaDB AddGTID: result does not keep exactly one (the greatest) position per domain">>,
+            <<o.recvSame /\ o.recvText = prevText, "MariaDB AddGTID altered the set it was added to">>,
+            <<o.had = Ma!ContainsGtidOp(set, g), "MariaDB ContainsGTID does not compare sequence numbers within the domain">>,
+            <<o.has /\ o.sup, "MariaDB AddGTID: result does not contain the GTID / the original set">>})
+          \cup MariaHist(e, x, o.text, Tail(ops), Tail(obs))
+
+MonGsMaria(e) ==
+  LET o == e.obs IN
+  Chk("C19.mariaset", e, {
+    <<WellFormedMaria(o.text) /\ MariaEntries(o.text) = AsSet(e.entries) /\ Len(Split(o.text, 44)) = Len(e.entries), "String() of a MariaDB set">>,
+    <<~o.parseErr /\ o.text2 = o.text /\ o.eq, "parsing the printed MariaDB set does not return an equal set">>})
+  \cup MariaHist(e, e.entries, o.text, e.ops, e.hist)
+
 Mon(e) ==
-  CASE e.fn = "cell" -> UNION {MonCell(e, p) : p \in Props} \cup
+  CASE e.fn = "gs56.add" -> MonGs56Add(e)
+    [] e.fn = "gs56.history" -> MonGs56History(e)
+    [] e.fn = "gs56.pair" -> MonGs56Pair(e)
+    [] e.fn = "gtid56" -> MonGtid56(e)
+    [] e.fn = "gtid56.event" -> MonGtid56Event(e)
+    [] e.fn = "gtidmaria" -> MonGtidMaria(e)
+    [] e.fn = "gtidmaria.event" -> MonGtidMariaEvent(e)
+    [] e.fn = "gs56.codec" -> MonGs56Codec(e)
+    [] e.fn = "gsmaria" -> MonGsMaria(e)
+    [] e.fn = "cell" -> UNION {MonCell(e, p) : p \in Props} \cup
                         (IF ZoneOK(e) THEN {} ELSE {F("HARNESS.zone", e, "zone offset logged by the harness is not the zone's")})
     [] e.fn \in {"intbatch", "datebatch", "timebatch"} -> UNION {MonBatch(e, p) : p \in Props}
     [] OTHER -> {}
